@@ -416,6 +416,8 @@ func __visited[K comparable, V any](m map[K]V, k K) bool { return true }
 func __witness(x int) bool { return true }
 func __countRecv[T any](ch <-chan T, lo, hi int, pred func(T) bool) int { return 0 }
 func __countIn[T any](s []T, lo, hi int, pred func(T) bool) int { return 0 }
+func __sumSq(v []float64, n int) float64 { return 0 }
+func __sumSqDiff(a, b []float64, n int) float64 { return 0 }
 func __distinctRefs(a, b any) bool { return true }
 func __allocatedRef(a any) bool { return true }
 func __mapAt[K comparable, V any](m map[K]V, k K) V { var z V; return z }
@@ -616,7 +618,7 @@ func splitTop(s string, sep byte) []string {
 
 var (
 	oldRe    = regexp.MustCompile(`\bold\(`)
-	forallRe = regexp.MustCompile(`\b(forall|forall2|forall3|exists|exists2|ite|visited|mapAt|mapHas|witness|countRecv|countIn|distinctRefs|allocatedRef|sentN|sentAt|sentStamp|neverClosed|recvN|recvAt|recvTotalAt|recvTotal|closed|drained|held|rheld|fresh|mapEq|sameElems|sameArray|sameSlice|allocatedElemsKept|allocated|arrayAllocated|same|nilSlice|disjoint|elemsUnchangedExcept|elemsUnchangedExcept2|spawnN|spawnArg|spawnIs|callNOf|callRetOf|callResOf\[[A-Za-z0-9_.*\[\]]+\]|callRecvOf\[[A-Za-z0-9_.*\[\]]+\]|callStrOf|callResStrOf|sprintfArg|strFirst|libFailN|fileClosed|callArg2Of\[[A-Za-z0-9_.*\[\]]+\]|callArgOf\[[A-Za-z0-9_.*\[\]]+\]|callN|callIs|callRet|decoded\[[A-Za-z0-9_.*\[\]]+\]|decodeOK\[[A-Za-z0-9_.*\[\]]+\]|nextDecoded\[[A-Za-z0-9_.*\[\]]+\]|nextDecodeOK\[[A-Za-z0-9_.*\[\]]+\]|logN|logAt\[[A-Za-z0-9_.*\[\]]+\])\(`)
+	forallRe = regexp.MustCompile(`\b(forall|forall2|forall3|exists|exists2|ite|visited|mapAt|mapHas|witness|countRecv|countIn|sumSqDiff|sumSq|distinctRefs|allocatedRef|sentN|sentAt|sentStamp|neverClosed|recvN|recvAt|recvTotalAt|recvTotal|closed|drained|held|rheld|fresh|mapEq|sameElems|sameArray|sameSlice|allocatedElemsKept|allocated|arrayAllocated|same|nilSlice|disjoint|elemsUnchangedExcept|elemsUnchangedExcept2|spawnN|spawnArg|spawnIs|callNOf|callRetOf|callResOf\[[A-Za-z0-9_.*\[\]]+\]|callRecvOf\[[A-Za-z0-9_.*\[\]]+\]|callStrOf|callResStrOf|sprintfArg|strFirst|libFailN|fileClosed|callArg2Of\[[A-Za-z0-9_.*\[\]]+\]|callArgOf\[[A-Za-z0-9_.*\[\]]+\]|callN|callIs|callRet|decoded\[[A-Za-z0-9_.*\[\]]+\]|decodeOK\[[A-Za-z0-9_.*\[\]]+\]|nextDecoded\[[A-Za-z0-9_.*\[\]]+\]|nextDecodeOK\[[A-Za-z0-9_.*\[\]]+\]|logN|logAt\[[A-Za-z0-9_.*\[\]]+\])\(`)
 	assertRe = regexp.MustCompile(`\bassert\(`)
 )
 
